@@ -2,6 +2,8 @@ package stream
 
 import (
 	"io"
+	"regexp"
+	"strings"
 
 	"github.com/ChrisTrenkamp/xsel"
 
@@ -174,6 +176,30 @@ func JSON(t *simkit.Tape, o *simkit.Outcome, full bool) {
 			o.Probe("corruption-unjudged")
 		}
 	}
+	// a numeral that denotes no double (grammatically valid JSON): an error is
+	// fine and so is keeping the literal, but never a text that is no numeral
+	if t.Bool(1, 5) {
+		huge := []string{"1e400", "-1E999", "1.8e308", "123456789e301", "1e309", "-1e309", "17976931348623158" + strings.Repeat("0", 293)}[t.Draw(7)]
+		text := []string{huge, "[" + huge + "]", `{"k": ` + huge + `, "z": 1}`, "[1, " + huge + ", 2]"}[t.Draw(4)]
+		ch, eh, ph := safeRead(readJson, simio.NewSimReader(simio.DrawDelivery(t, []byte(text))))
+		o.Evals++
+		o.Fault("number-outside-double-range")
+		if !monitor(o, P, "ReadJson", ch, eh, ph) {
+			return
+		}
+		if eh == nil {
+			var walk func(n *model.Node)
+			walk = func(n *model.Node) {
+				if n.Kind == model.KText && !jsonNumeral.MatchString(n.Value) {
+					o.Violate(P, "mapping", "number-without-double-becomes-non-numeral", "the numeral %s denotes no double; ReadJson returned a nil error and the text node %q, which is not a number\ntext: %s", huge, n.Value, text)
+				}
+				for _, c := range n.Children {
+					walk(c)
+				}
+			}
+			walk(model.Snap(ch).Tree)
+		}
+	}
 	if t.Bool(1, 3) {
 		cfg2 := model.DrawJSONConfig(t)
 		other := model.SerialiseJSON(t, cfg2, model.GenJSON(t, cfg2))
@@ -182,5 +208,7 @@ func JSON(t *simkit.Tape, o *simkit.Outcome, full bool) {
 	o.NonTrivial = len(data) >= 5 && inside > 0
 	o.Fingerprint = simkit.Hash64(string(data))
 }
+
+var jsonNumeral = regexp.MustCompile(`^-?(0|[1-9][0-9]*)(\.[0-9]+)?([eE][+-]?[0-9]+)?$`)
 
 func refTree(vals []*model.JV) *model.Node { return model.JSONToTree(vals) }
